@@ -181,9 +181,10 @@ reg(Spec('C11', ['c11:C11'],
          overrides={'*': {'ops_boost': {'settings': 5}, 'settings_churn': 0.15}},
          rule=R_RUN + 'non-trivial = at least two SETTINGS frames of one endpoint were outstanding at once' + R_DISTINCT))
 reg(Spec('C12', ['c12:C12'],
-         quick=[('ADV', 2500), ('CORRUPT', 1500), ('MISUSE', 800), ('FLOW', 600)],
+         quick=[('ADV', 2500), ('CORRUPT', 1500), ('MISUSE', 800), ('FLOW', 600), ('UPGRADE', 400)],
          thorough=[('ADV', 60000), ('CORRUPT', 40000), ('MISUSE', 20000), ('FLOW', 20000), ('UPGRADE', 5000)],
-         overrides={'*': {'ops_boost': {'settings': 3, 'push': 2}, 'adv_overflow': 0.15, 'push': 0.15}},
+         overrides={'*': {'ops_boost': {'settings': 3, 'push': 2}, 'adv_overflow': 0.15, 'push': 0.15},
+                    'UPGRADE': {'upgrade_bad_header': 0.6, 'ops_boost': {'settings': 3}}},
          rule=R_RUN + 'non-trivial = a boundary value (0, 1, 2, 2^14-1, 2^14, 2^24-1, 2^24, 2^31-1, 2^31, 2^32-1), an out-of-range value or an unknown identifier was used, locally or on the wire' + R_DISTINCT,
          assumptions=['setting identifiers sent through update_settings stay below 256 (hyperframe 6.1 serialises id & 0xFF); received identifiers cover 0..65535']))
 
@@ -211,7 +212,8 @@ reg(Spec('C20', ['c20:C20', 'c20:C20Credit'],
 reg(Spec('C21', ['c21:C21'],
          quick=[('DUPLEX', 800), ('FLOW', 500), ('CORRUPT', 800), ('ADV', 800), ('HDR', 400)],
          thorough=[('DUPLEX', 20000), ('FLOW', 10000), ('CORRUPT', 20000), ('ADV', 20000), ('HDR', 10000), ('RACE', 10000)],
-         overrides={'*': {'ops_boost': {'settings': 2}}},
+         overrides={'*': {'ops_boost': {'settings': 2}, 'adv_ack_big': 0.12, 'settings_bias': {5: [16384, 32768, 65536, 16385]},
+                          'settings_churn': 0.1}},
          rule=R_RUN + 'each endpoint log is re-executed three times on fresh connections (all bytes between two calls at once; byte-at-a-time for inputs <= 4 KiB, a seeded random partition above; at-once with random data_to_send(amount) reads); '
               'non-trivial = an endpoint received at least one byte (byte-at-a-time splits every frame header and the preface)' + R_DISTINCT,
          assumptions=['output is compared at the points where the application made a call (no draining between chunks of one segment: '
